@@ -110,6 +110,11 @@ type Frame struct {
 	rangeIdx   map[int]types.Object
 }
 
+type sliceParentInfo struct {
+	parent *Term
+	lo     *Term
+}
+
 type Exec struct {
 	eng        *Engine
 	frames     []*Frame
@@ -124,6 +129,7 @@ type Exec struct {
 	paths      int
 	curProps   []string
 	loadSeen   map[string]bool
+	sliceParent map[*Term]sliceParentInfo // []float64 slice expression -> (sliced value, low index)
 	pureFV     map[*Term]bool // function values known (by a resultpure contract) to be side-effect free
 	curClause        *Clause
 	nameCount        map[string]int
